@@ -24,6 +24,9 @@ type C16Node struct {
 	Reply  string
 	Values int // number of peers it returns in `values`
 	Lists  []int
+	// Alias (parallel to Lists): 0 = the contact is named under its own ID; k > 0 = under another ID
+	// (its own with the last byte xor k), so that one address is advertised under several IDs
+	Alias []int
 	// Lie: answers with another ID than the one it is advertised under
 	Lie bool
 	// AnnReply: how it answers the announce_peer it may receive: ok | error | silent
@@ -69,6 +72,7 @@ func genC16(t *rapid.T) C16Sc {
 		nl := rapid.IntRange(0, 5).Draw(t, "n.nlists")
 		for j := 0; j < nl; j++ {
 			nd.Lists = append(nd.Lists, rapid.IntRange(0, n-1).Draw(t, "n.list"))
+			nd.Alias = append(nd.Alias, []int{0, 0, 0, 1, 2}[uniformInt(t, 5, "n.alias")])
 		}
 		sc.Nodes = append(sc.Nodes, nd)
 	}
@@ -160,8 +164,12 @@ func runC16(sc C16Sc, c *kit.Case) *kit.Violation {
 					}
 				}
 				var contacts []SimContact
-				for _, l := range nd.Lists {
-					contacts = append(contacts, SimContact{ids[l], c16Addr(l)})
+				for li, l := range nd.Lists {
+					id := ids[l]
+					if li < len(nd.Alias) && nd.Alias[li] != 0 {
+						id[19] ^= byte(nd.Alias[li])
+					}
+					contacts = append(contacts, SimContact{id, c16Addr(l)})
 				}
 				var tok *string
 				switch nd.Reply {
